@@ -6106,9 +6106,11 @@ class CodegenCtx:
 
         # Find all transitions that operate on End
         unconditional_end_transition = state[DFTransition.End]
-        if unconditional_end_transition is not None and not unconditional_end_transition.is_fallthrough and DFTransition.End not in unconditional_end_transition.on_values:
+        if unconditional_end_transition is not None and DFTransition.End not in unconditional_end_transition.on_values and (
+                not unconditional_end_transition.is_fallthrough or state in self.dfa.accepting_states):
             # found only through Else: a transition that consumes a byte (e.g. the skip loop of a wait, with the per-byte
-            # actions of an enclosing foreach) is not for the end of input, which is not a byte
+            # actions of an enclosing foreach) is not for the end of input, which is not a byte; and in an accepting state
+            # the parse is complete: the transition that rejects further bytes must not turn the end of input into FAIL
             unconditional_end_transition = None
 
         result.add("// possible end transitions")
